@@ -35,11 +35,84 @@ STRUCT_FAULTS = [
 ]
 
 
+# faults found after lexing (by the node constructors with real Python parsing, or by the code generator)
+COMPILE_FAULTS = [(n_, t_, (t_.rindex(m_) if m_ else 0), w_) for n_, t_, m_, w_ in [
+    ("anonymous-block-in-namespace", "<%namespace name=\"n\">\n  <%block>x</%block>\n</%namespace>", "<%block", "linecol"),
+    ("duplicate-block", "<%block name=\"a\">1</%block>\n  <%block name=\"a\">2</%block>", "<%block", "linecol"),
+    ("block-named-like-def", "<%def name=\"a()\"></%def>\n  <%block name=\"a\">2</%block>", "<%block", "linecol"),
+    ("named-block-in-def", "<%def name=\"d()\">\n  <%block name=\"b\">x</%block></%def>", "<%block", "linecol"),
+    ("named-block-in-call", "<%call expr=\"d()\">\n  <%block name=\"b\">x</%block></%call>", "<%block", "linecol"),
+    ("def-signature", "<%def name=\"d(a b)\"></%def>", None, "linecol"),
+    ("def-without-parenthesis", "<%def name=\"d\"></%def>", None, "linecol"),
+    ("page-args", "<%page args=\"a b\"/>", None, "linecol"),
+    ("block-args", "<%block name=\"q\" args=\"a b\"></%block>", None, "linecol"),
+    ("filter-list", "${x | a b}", None, "linecol"),
+    ("attribute-expression", "<%include file=\"${a b}\"/>", None, "linecol"),
+    ("call-expression", "<%call expr=\"f(a b)\"></%call>", None, "linecol"),
+    ("text-filter", "<%text filter=\"a b\">x</%text>", None, "linecol"),
+]]
+
+
+def hybrid_ast_namespace():
+    """real mako.ast classes for code that is concrete (the planted construct), recording stubs for symbolic code
+    (directives formed by the symbolic prefix - paths that are not asserted)"""
+    def mk(name):
+        real = getattr(AST, name)
+
+        def make(code, *a, **kw):
+            cc = code.concrete_or_none() if isinstance(code, SymStr) else code
+            if isinstance(cc, str):
+                return real(cc, *a, **kw)
+            return common.StubCode(code, **kw)
+        return make
+    return types.SimpleNamespace(**{n: mk(n) for n in ("PythonCode", "ArgumentList", "PythonFragment", "FunctionDecl", "FunctionArgs")})
+
+
+def h_compile(n, fault):
+    name, text, off, what = fault
+
+    def h(p):
+        PT.ast = hybrid_ast_namespace()
+        pre = sym_string(n, "p")
+        s = SymStr(pre.items + list(text))
+        ref = tokenizer.R(s.items, {}, set())
+        e = None
+        lx = L.Lexer(s, filename=FILENAME)
+        try:
+            tree = lx.parse()
+        except (EXC.SyntaxException, EXC.CompileException) as ex:
+            e, tree = ex, None
+        plain_prefix = ref[0] in ("dir", "exc") and ref[1] == n
+        if e is None and plain_prefix:
+            # the code generator runs on the lexer's tree; the text of Text nodes is concretised (positions do not depend on it)
+            m = p.witness()
+
+            def fix(nodes):
+                for nd in nodes:
+                    if type(nd).__name__ == "Text":
+                        nd.content = conc(nd.content, m)
+                    elif hasattr(nd, "nodes"):
+                        fix(nd.nodes)
+            fix(tree.nodes)
+            try:
+                CG.compile(tree, "/t.html", FILENAME, default_filters=["str"], buffer_filters=[], imports=None, future_imports=None,
+                           source_encoding=None, generate_magic_comment=False, strict_undefined=False, enable_loop=True,
+                           reserved_names=CG.RESERVED_NAMES)
+            except (EXC.SyntaxException, EXC.CompileException) as ex:
+                e = ex
+        for c in pre.items:
+            if values.ch_in(c, OTHER_BOUNDARIES):
+                p.tag("other-line-boundary")
+        return dict(s=s, n=n, e=e, ref=ref, compile_stage=True)
+    return h
+
+
 def setup():
     global L, PT, EXC, AST, PP, PG, DOMAIN
     if L is not None:
         return
-    L, PT, EXC, AST, PP, PG = common.mako("lexer", "parsetree", "exceptions", "ast", "pyparser", "pygen")
+    global CG
+    L, PT, EXC, AST, PP, PG, CG = common.mako("lexer", "parsetree", "exceptions", "ast", "pyparser", "pygen", "codegen")
     DOMAIN = common.domain_for([L, PT, PG], reps=2)
     values.set_domain(DOMAIN)
 
@@ -128,21 +201,26 @@ def on_struct(fault):
         acc.vcs += 1
         if e.filename != FILENAME or not (e.source == s):
             acc.candidate(kind="wrong-filename-or-source", input=dict(template=w, fault=name), detail="filename %r" % (e.filename,))
-        real = realproc.call("compile_error", w, FILENAME)
-        acc.replayed += 1
         mine = (type(e).__name__, e.lineno, e.pos)
+        if r.get("compile_stage"):
+            real = realproc.call("template_error", w, FILENAME)
+        else:
+            real = realproc.call("compile_error", w, FILENAME)
+        acc.replayed += 1
         if real[:3] != mine:
             raise core.EngineError("engine/real disagreement on %r: real %r mine %r" % (w, real, mine))
         for t in p.tags:
             acc.tags[t] += 1
-        # the error page must display the template line the exception names (lines are "\n"-separated, as the lexer counts them)
-        disp = realproc.call("error_display", w, FILENAME)
-        if disp is not None:
+        # the error page must display the template line the exception names (lines are "\n"-separated, as the lexer counts them),
+        # also when the faulty template is compiled while another template is rendering (<%include>)
+        for via in ("direct", "include"):
+          disp = realproc.call("error_display", w, FILENAME, via)
+          if disp is not None:
             ln, shown, idx = disp
             want = w.split("\n")[ln - 1] if 0 < ln <= len(w.split("\n")) else None
             acc.vcs += 1
             if want is not None and not (0 <= idx < len(shown) and shown[idx] == want):
-                acc.candidate(kind="error-page-wrong-line", input=dict(template=w, fault=name),
+                acc.candidate(kind="error-page-wrong-line", input=dict(template=w, fault=name, via=via),
                               detail="line %d is %r, page shows %r" % (ln, want, shown[idx] if 0 <= idx < len(shown) else None))
         acc.sample(dict(template=w, fault=name, reported=mine))
     return on
@@ -304,7 +382,7 @@ bad = None
 if KIND == "error-page-wrong-line":
     sys.path.insert(0, "/verif")
     from props.realops import error_display
-    ln, shown, idx = error_display(T, "/templates/page.html")
+    ln, shown, idx = error_display(T, "/templates/page.html", CASE.get("via", "direct"))
     want = T.split("\\n")[ln - 1]
     got = shown[idx] if 0 <= idx < len(shown) else None
     print("exception names line", ln, "=", repr(want), "; html_error_template shows", repr(got))
@@ -366,16 +444,22 @@ def run(check, tier):
         "construct are asserted (the others are counted as skipped)" % len(DOMAIN.cps),
         "Python faults: mako._ast_util.parse is replaced by a stub that raises SyntaxError on a SYMBOLIC relative line of the code it is "
         "handed (its contract); the real PythonCode / PythonFragment / pyparser.parse / adjust_whitespace offset arithmetic runs on it",
+        "compile-stage faults (raised by node constructors parsing real Python, or by the code generator: misplaced / duplicate / anonymous "
+        "blocks, bad def / page / block signatures, filter lists, attribute and call expressions): the same symbolic prefix; the planted "
+        "construct's Python is parsed for real, the real code generator runs on the lexer's tree with Text contents concretised",
         "the position of 'Unclosed tag' raised at end of input is not asserted (pinned by test_lexer.test_unclosed_tag)",
         "column of a control line: only the line is asserted (the statement does not fix whether the column is that of '%' or of the line start)")
     check.not_claimed("RichTraceback / error template rendering of the line (C12 covers the mapping arithmetic)",
-                      "errors raised by the code generator (duplicate / misplaced blocks) beyond concrete replay",
                       "attribute expressions on later lines of a multi-line tag")
     Lp = {"quick": 2, "thorough": 4}[tier]
     jobs = []
     for f in STRUCT_FAULTS:
         for n in range(0, Lp + 1):
             jobs.append(("C11-s-%s-%d" % (f[0], n), h_struct(n, f), on_struct(f), "structural fault %s after %d symbolic characters" % (f[0], n),
+                         dict(prefix_chars=n, construct=f[1]), ("asserted",) if n == 0 else ()))
+    for f in COMPILE_FAULTS:
+        for n in range(0, {"quick": 1, "thorough": 3}[tier] + 1):
+            jobs.append(("C11-c-%s-%d" % (f[0], n), h_compile(n, f), on_struct(f), "compile-stage fault %s after %d symbolic characters" % (f[0], n),
                          dict(prefix_chars=n, construct=f[1]), ("asserted",) if n == 0 else ()))
     W = {"quick": 2, "thorough": 3}[tier]
     for kind in PY_KINDS:
